@@ -126,11 +126,14 @@ def run_tlc(module, cfg=None, env=None, workers=None, timeout=1500, simulate=Non
 
 
 # ----------------------------------------------------------------------------- replay
-def run_replay(binary, args, cases_path, timeout=1200):
+def run_replay(binary, args, cases_path, timeout=2400, tier=None):
     """Runs a harness binary over a cases file; returns (mismatches, summary)."""
     t = time.time()
+    env = dict(os.environ)
+    if tier:
+        env["VERIF_TIER"] = tier
     with open(cases_path) as f:
-        p = subprocess.run(["timeout", str(timeout), harness_bin(binary)] + args, stdin=f,
+        p = subprocess.run(["timeout", str(timeout), harness_bin(binary)] + args, stdin=f, env=env,
                            stdout=subprocess.PIPE, stderr=subprocess.PIPE, text=True)
     if p.returncode != 0:
         log(p.stderr[-3000:])
@@ -555,6 +558,28 @@ def validate_trace(ev, module, trace_path, label, timeout=1200):
     ev.traces += summary["events"]
     log(f"[trace] {module}: {summary['events']} events validated, {len(mism)} mismatches, {time.time()-t:.1f}s")
     return mism, summary
+
+
+def session_stage(ev, prop, tier, seed, timeout=3000):
+    """Session machine: every interleaving of two threads' programs, replayed sequentially and by real threads."""
+    cases = os.path.join(WORK, f"{prop}-session-{os.getpid()}.cases")
+    r = run_tlc("Session", env={"VERIF_TIER": tier, "VERIF_SEED": str(seed)}, cases_path=cases, timeout=timeout, workers=8)
+    if r.nreplay == 0:
+        raise ToolError("Session produced no histories (vacuous)")
+    ev.add_tlc("Session", r, "invariants HistoryIndependent NoOpenCall, action property ReadsDoNotWrite")
+    mism, summary = run_replay("replay", ["--checks", "session"], cases, tier=tier)
+    ev.traces += summary["cases"]
+    ev.evaluations += summary["cases"]
+    ev.distinct_nontrivial += summary["distinct"]
+    ev.extra.setdefault("per_check_cases", {}).update(summary.get("checks", {}))
+    with open(cases) as f:
+        for i, line in enumerate(f):
+            if i % max(1, summary["cases"] // 3) == 0 and len(ev.samples) < 8:
+                c = json.loads(line)
+                qs = ["".join(map(chr, q)) for q in c["queries"]]
+                ev.samples.append({"history": [(f"t{e['t']} write doc{e['op']['d']} {''.join(map(chr, e['wpath']))}" if e["ev"] == "write"
+                                                else f"t{e['t']} {e['ev']} {e['op']['e']}({qs[e['op']['q'] - 1]}) doc{e['op']['d']}") for e in c["hist"]]})
+    return mism, cases
 
 
 def GS(prop, mode, checks):
